@@ -8,6 +8,7 @@ built from the configuration through the public API with no intermediate reads a
 """
 import copy
 import inspect
+import os
 
 import numpy as np
 from hypothesis import strategies as st
@@ -233,7 +234,7 @@ def run(case):
                 ok = True  # residuals at rounding level (perfect fit): absolute floor
         facet_obs = obs
         if not ok and obs == "parameter_errors" and F._minimizer in (None, "iminuit"):
-            # bug model of KF-C03-1 (same root cause as KF-C15-3): with iminuit parameter_errors are MIGRAD's running estimates, which depend on the path of
+            # facet naming only (root cause of KF-C15-3; no in-domain demonstration was found for C03, so nothing is listed): with iminuit parameter_errors are MIGRAD's running estimates, which depend on the path of
             # the minimisation, while the HESSE covariance matrices of the two fits agree
             try:
                 if _min_equal("parameter_cov_mat", H.parameter_cov_mat, F.parameter_cov_mat, H, F) and np.all(np.abs(np.asarray(h, float)) < 10 * np.abs(np.asarray(f, float)) + 1e-300):
@@ -414,6 +415,7 @@ def _min_equal(obs, h, f, H, F):
     if not F.errors_valid:
         return True  # without uncertainties the parameter errors are documented to be meaningless
     rel = 0.1 if F._minimizer in (None, "iminuit") else 0.03  # MIGRAD's running error estimate depends on the path taken (C07: <= 8 %)
+    rel *= float(os.environ.get("KVERIF_C03_REL_FACTOR", "1"))  # calibration aid only (never set by the registered commands)
     if h is None or f is None:
         return h is None and f is None
     h = np.asarray(h, float)
@@ -452,11 +454,6 @@ def _min_equal(obs, h, f, H, F):
     if obs == "parameter_cov_mat":
         return bool(np.all((np.abs(h - f) <= rel * np.outer(e, e) + 1e-300) | both_nan))
     return bool(np.all((np.abs(h - f) <= (0.03 if cond_cor <= 1e3 else 0.1)) | (np.isnan(h) & np.isnan(f))))
-
-
-KNOWN = {
-    "KF-C03-1": lambda sub, case, v: v.facet == "history-dependent:parameter_errors-migrad-estimate",
-}
 
 
 def _replace_data(H, cfg, op, spec0):
